@@ -24,12 +24,24 @@ func (e *Engine) initStoresOf(pkg *ssa.Package) map[*ssa.Global]bool {
 			for _, in := range b.Instrs {
 				switch x := in.(type) {
 				case *ssa.Store:
-					if g, ok := x.Addr.(*ssa.Global); ok && g.Name() != "init$guard" {
-						m[g] = true
+					if g := globalRoot(x.Addr); g != nil && g.Name() != "init$guard" {
+						if _, direct := x.Addr.(*ssa.Global); direct {
+							m[g] = true // assigned as a whole: poisoned until the assignment runs
+						} else if !m[g] {
+							m[g] = false // written piecewise: starts from its zero value
+						}
 					}
 				case *ssa.Call:
 					if callee := x.Call.StaticCallee(); callee != nil && callee.Pkg == pkg {
 						scan(callee, depth+1)
+					}
+					// a pointer into a global handed to a callee may be written through
+					for _, a := range x.Call.Args {
+						if g := globalRoot(a); g != nil && g.Name() != "init$guard" {
+							if !m[g] {
+								m[g] = false
+							}
+						}
 					}
 				case *ssa.MapUpdate:
 					// writes into a global map read just before: find its load
@@ -128,7 +140,7 @@ func (e *Engine) globalPtr(st *State, g *ssa.Global) Value {
 	pkg := g.Pkg
 	if pkg != nil && !st.inited[pkg] && pkg.Pkg.Path() != vrPkg {
 		stores := e.initStoresOf(pkg)
-		if stores[g] {
+		if _, touched := stores[g]; touched {
 			e.runInit(st, pkg)
 			panic(sigRetry{})
 		}
@@ -199,8 +211,8 @@ func (e *Engine) runInit(st *State, pkg *ssa.Package) {
 		}
 		return
 	}
-	for g := range e.initStoresOf(pkg) {
-		if g.Pkg == pkg {
+	for g, direct := range e.initStoresOf(pkg) {
+		if g.Pkg == pkg && direct {
 			if _, ok := st.globals[g]; !ok {
 				e.allocGlobal(st, g, true)
 			}
@@ -212,4 +224,20 @@ func (e *Engine) runInit(st *State, pkg *ssa.Package) {
 	fr.lenient = true
 	fr.initPkg = pkg
 	fr.initStart = e.objSeq
+}
+
+// globalRoot returns the global that an address expression points into, if any.
+func globalRoot(v ssa.Value) *ssa.Global {
+	for {
+		switch x := v.(type) {
+		case *ssa.Global:
+			return x
+		case *ssa.FieldAddr:
+			v = x.X
+		case *ssa.IndexAddr:
+			v = x.X
+		default:
+			return nil
+		}
+	}
 }
